@@ -114,7 +114,7 @@ def find_handler(case, rq):
     if case["site"] is None:
         return None
     for r in case["site"]:
-        if list(r["path"]) == list(rq["path"]):
+        if list(r["path"]) == list(rq["path"]) and not r.get("site_only"):
             return r
     return False
 
@@ -166,6 +166,8 @@ def schedule(case, stops=()):
 def model_line(case, evs):
     parts = ["C09", "nosite" if case["site"] is None else "site"]
     for r in case["site"] or []:
+        if r.get("site_only"):
+            continue                        # an empty nested site: nothing is registered there
         hs = ",".join("%s=%s" % (m, outcome_token(h)) for m, h in sorted(r["handlers"].items(), key=lambda x: int(x[0])))
         parts.append("res:%s:%s" % ("/".join(r["path"]), hs))
     parts.append("--")
@@ -455,6 +457,32 @@ def boundary_cases(gen):
     for mt in ("CON", "NON"):
         for path in (["d"], ["c"], ["only", "get"], ["empty"], ["missing"], []):
             for code in M + [8, 9, 31]:
+                t += 50
+                reqs.append(gen.request(t, (t // 50) % 4, code, path, mtype=mt, nr=None))
+    pack(site, reqs)
+    # 1b. the same clauses below nested sites (one and two levels, with and without anything registered inside):
+    # what is registered answers, every other address -- the nested site's own path with and without trailing
+    # slash, paths below it, beside it -- gives 4.04, exceptions below a nested site give 5.00
+    ret = lambda pl: {"o": "ret", "d": 0, "stubborn": False, "code": None, "payload": pl, "nr": None}
+    site = [{"path": ["plain", "x"], "under": [1], "handlers": {"1": ret("01"), "2": ret("02")}},
+            {"path": ["plain", "deeper", "y"], "under": [1, 2], "handlers": {"1": ret("03")}},
+            {"path": ["plain", "deeper", "k"], "under": [1, 2],
+             "handlers": {"1": {"o": "exc", "d": 0, "stubborn": False, "exc": "KeyError", "k": gen.secret_k()},
+                          "2": {"o": "exc", "d": 0, "stubborn": False, "exc": "IndexError", "k": gen.secret_k()}}},
+            {"path": ["bare", "nothing"], "under": [1], "site_only": True, "handlers": {}},
+            {"path": ["top"], "handlers": {"1": ret("04"),
+                                           "2": {"o": "exc", "d": 0, "stubborn": False, "exc": "KeyError",
+                                                 "k": gen.secret_k()}}}]
+    site = [r for r in site if not r.get("site_only")] + [r for r in site if r.get("site_only")]
+    reqs = []
+    t = 0
+    for mt in ("CON", "NON"):
+        for path in (["plain", "x"], ["plain"], ["plain", ""], ["plain", "x", ""], ["plain", "nope"],
+                     ["plain", "deeper"], ["plain", "deeper", ""], ["plain", "deeper", "y"],
+                     ["plain", "deeper", "k"], ["plain", "deeper", "zz"], ["plain", "deeper", "y", "z"],
+                     ["bare"], ["bare", ""], ["bare", "nothing"], ["bare", "q"], ["top"], ["top", ""],
+                     ["", "plain", "x"]):
+            for code in (1, 2):
                 t += 50
                 reqs.append(gen.request(t, (t // 50) % 4, code, path, mtype=mt, nr=None))
     pack(site, reqs)
